@@ -53,7 +53,7 @@ ASSUMPTIONS = ["atomicity is demanded at the granularity 'registration / existen
                "subscription requests are pairwise different (open finding of C14 about identical requests sharing one id); messages contain no bytes"]
 EXPECTED_PROBES = ["gc-pass-overlapped-api-call", "attendance-overlapped-api-call", "update-raced-delete-or-gc", "add-raced-add", "query-raced-mutation",
                    "registry-raced", "subscription-raced", "reactive-gc-inline", "reactive-attendance-inline", "callback-invoked", "expired-object-collected",
-                   "lock-contended", "preemption-inside-lock-free-region", "history-linearized", "strategy:random", "strategy:pct", "strategy:one"]
+                   "lock-contended", "preemption-inside-lock-free-region", "history-linearized", "strategy:random", "strategy:pct", "strategy:one", "strategy:sync-only"]
 
 T0_US = 1_767_225_600_000_000
 RECORD_KEYS = ("application_id", "timestamp", "location", "dataObject", "timeValidity")
@@ -129,6 +129,8 @@ def gen_plan(run_seed: int, tier: str) -> dict:
             pre.append(s_)
             subs.append((s_["n"], s_["app"]))
 
+    rq = random.Random(run_seed ^ 0xF117E5)      # own stream for two-statement filters
+
     def draw(mine):
         firm = [o for o in objs if not o[3]]
         for _ in range(20):
@@ -149,6 +151,11 @@ def gen_plan(run_seed: int, tier: str) -> dict:
                 flt = None
                 if r.random() < 0.3:
                     flt = {"s1": {"attr": "header.stationId", "op": r.choice(["==", "!="]), "val": r.choice([1001, 1002])}}
+                    if rq.random() < 0.5:
+                        # two statements on the attribute that updates change: a record that changes between the evaluation of the
+                        # first and of the second statement yields an answer that neither its old nor its new version explains
+                        flt["logic"] = rq.choice(["and", "or"])
+                        flt["s2"] = {"attr": "header.stationId", "op": rq.choice(["==", "!="]), "val": rq.choice([1001, 1002, 2001])}
                 return {"op": "query", "app": r.choice(reg_c) if r.random() < 0.8 else r.choice(conss),
                         "types": r.choice([[2], [16], [1], [1, 2, 16], [1, 2, 16]]), "filter": flt}
             if k == "collect_trash":
@@ -183,11 +190,21 @@ def gen_plan(run_seed: int, tier: str) -> dict:
     # attendance passes run on other threads - its new subscription must survive
     r2 = random.Random(run_seed ^ 0x5EB5C16)
     pre_subs = [o for o in pre if o["op"] == "subscribe"]
-    if pre_subs and r2.random() < 0.10:
-        s0 = r2.choice(pre_subs)
-        n_sub[0] += 1
-        chain = [{"op": "deregister_consumer", "app": s0["app"]}, {"op": "register_consumer", "app": s0["app"]},
-                 dict(s0, n=n_sub[0], same_as=s0["n"])]
+    pat = r2.random()
+    newcomers = [c for c in conss if c not in reg_c]
+    if (pre_subs and pat < 0.10) or (newcomers and 0.10 <= pat < 0.17):
+        if pat < 0.10:
+            s0 = r2.choice(pre_subs)
+            n_sub[0] += 1
+            chain = [{"op": "deregister_consumer", "app": s0["app"]}, {"op": "register_consumer", "app": s0["app"]},
+                     dict(s0, n=n_sub[0], same_as=s0["n"])]
+        else:
+            # a consumer that was not there before registers and subscribes while attendance passes run
+            c_new = r2.choice(newcomers)
+            n_sub[0] += 1
+            chain = [{"op": "register_consumer", "app": c_new},
+                     {"op": "subscribe", "n": n_sub[0], "app": c_new, "types": r2.choice([[2], [16], [1, 2, 16], [2, 16]]),
+                      "priority": n_sub[0], "multiplicity": r2.choice([None, 1, 1, 2])}]
         others = [{"op": "attend"}]
         for _ in range(r2.choice([0, 1, 1, 2])):
             others.append(r2.choice([{"op": "attend"}, dict(add(r2.choice(reg_p)), dt_ms=0), {"op": "collect_trash", "dt_ms": 0}]))
@@ -196,9 +213,9 @@ def gen_plan(run_seed: int, tier: str) -> dict:
         nth2 = r2.choice([2, 2, 3])
         for i, o in enumerate(others):
             ops.append(dict(o, th=1 + i % (nth2 - 1)))
-        cfg["focus"] = "resubscribe"
+        cfg["focus"] = "resubscribe" if pat < 0.10 else "newcomer"
     cfg["pools"] = {"providers": provs, "consumers": conss}
-    sched = S.draw_strategy(r)
+    sched = S.sync_only_variant(run_seed, S.draw_strategy(r), focus_names=("service._lock", "database._lock", "maintenance."))
     return {"engine": ENGINE, "property": ID, "config": cfg, "pre": pre, "ops": ops, "sched": sched, "sched_seed": r.getrandbits(32)}
 
 
@@ -414,7 +431,13 @@ class _Run:
             if flt is not None:
                 cmpop = {"==": 0, "!=": 1, ">": 2, "<": 3, ">=": 4, "<=": 5}
                 s1 = flt["s1"]
-                f = C.Filter(C.FilterStatement(s1["attr"], C.ComparisonOperators(cmpop[s1["op"]]), s1["val"]))
+                if flt.get("s2") is None:
+                    f = C.Filter(C.FilterStatement(s1["attr"], C.ComparisonOperators(cmpop[s1["op"]]), s1["val"]))
+                else:
+                    s2 = flt["s2"]
+                    f = C.Filter(C.FilterStatement(s1["attr"], C.ComparisonOperators(cmpop[s1["op"]]), s1["val"]),
+                                 C.LogicalOperators(0 if flt["logic"] == "and" else 1),
+                                 C.FilterStatement(s2["attr"], C.ComparisonOperators(cmpop[s2["op"]]), s2["val"]))
             resp = self.if4.request_data_objects(C.RequestDataObjectsReq(op["app"], tuple(op["types"]), None, None, f))
             rec["ok"] = int(resp.result) == 0
             rec["records"] = list(resp.data_objects) if rec["ok"] else []
@@ -501,7 +524,11 @@ class _Run:
                 post = [{"op": "attend"}, {"op": "query", "app": AUDITOR, "types": list(L.ALL_TYPES), "filter": None}]
                 pools = self.cfg.get("pools", {})
                 # the final registry content is read through the API: a deregistration is acknowledged iff the application was registered
-                post += [{"op": "unsubscribe", "app": o["app"], "ref": o["n"]} for o in plan["ops"] if o["op"] == "subscribe" and o.get("same_as")]
+                # every subscription is read back through the API at the end: unsubscribing succeeds iff it (still) exists
+                # (of two equal requests - the re-subscription pattern - only the later one: they share one identifier)
+                repeated = {o.get("same_as") for o in plan["ops"] if o["op"] == "subscribe"}
+                post += [{"op": "unsubscribe", "app": o["app"], "ref": o["n"]} for o in list(plan.get("pre", [])) + list(plan["ops"])
+                         if o["op"] == "subscribe" and o["n"] not in repeated]
                 post += [{"op": "deregister_provider", "app": a} for a in pools.get("providers", [])]
                 post += [{"op": "deregister_consumer", "app": a} for a in pools.get("consumers", [])]
                 for i, op in enumerate(post):
@@ -777,7 +804,7 @@ class _Run:
             self.probe("preemption-while-holding-lock", sc.preempt_held)
         if sc.preempt_sync:
             self.probe("preemption-at-lock-boundary", sc.preempt_sync)
-        self.probe("strategy:" + sc.cfg.get("strategy", "?"))
+        self.probe("strategy:" + ("sync-only" if sc.cfg.get("sync_only") else sc.cfg.get("strategy", "?")))
 
     # ---------------------------------------------------------------- Wing-Gong search
     def linearize(self, done, firm, cluster, entities, overlap):
